@@ -48,6 +48,14 @@ impl C05 {
             return;
         }
         let snap = w.snapshot();
+        // one drain in three happens after the owner has pointed the farm manager at another pool
+        // manager (a legitimate configuration change): everything must still be withdrawable
+        let repointed = self.rng.gen_range(0..3) == 0;
+        if repointed {
+            let owner = w.owner.clone();
+            let other = w.users[w.users.len() - 1].to_string();
+            let _ = w.apply(&crate::wfarm::fm_config_op(&owner, |p| p.pool_manager_addr = Some(other.clone())));
+        }
         enum Job {
             Farm(String),
             Pos(String),
@@ -59,7 +67,12 @@ impl C05 {
         for j in jobs {
             match j {
                 Job::Farm(id) => {
-                    let farm = &f.farms[&id];
+                    // (claims made on the way out of positions above may have drawn on it meanwhile)
+                    let farm = match fobserve(w).farms.get(&id) {
+                        Some(x) => x.clone(),
+                        None => continue,
+                    };
+                    let farm = &farm;
                     let remainder = farm.farm_asset.amount.u128().saturating_sub(farm.claimed_amount.u128());
                     let b0 = w.balance(&farm.owner, &farm.farm_asset.denom);
                     let out = w.apply(&farm_op(&farm.owner, FarmAction::Close { farm_identifier: id.clone() }, vec![]));
@@ -79,7 +92,37 @@ impl C05 {
                         None => continue,
                     };
                     let b0 = w.balance(&p.receiver, &p.lp_asset.denom);
-                    let out = if pos_now.open {
+                    let via_close = pos_now.open && self.rng.gen_bool(0.5);
+                    let out = if via_close {
+                        // the ordinary way out: claim, close, wait, withdraw - in full
+                        let _ = w.apply(&crate::wfarm::claim_op(&p.receiver, None));
+                        let c = w.apply(&pos_op(&p.receiver, PositionAction::Close { identifier: id.clone(), lp_asset: None }, vec![]));
+                        if !c.is_ok() && c.err_msg().map(|m| m.contains("Maximum number of open/close positions")).unwrap_or(false) {
+                            // the documented limit of ten closed positions per user: this one has to
+                            // wait until others have been withdrawn; it takes the emergency exit here
+                            let o = w.apply(&pos_op(&p.receiver, PositionAction::Withdraw { identifier: id.clone(), emergency_unlock: Some(true) }, vec![]));
+                            if !o.is_ok() && amount <= 300_000_000_000_000_000_000 {
+                                failed.push(format!("withdrawing position {id} ({amount} LP, open=true): {}", o.short()));
+                            } else {
+                                done += 1;
+                            }
+                            continue;
+                        }
+                        if !c.is_ok() {
+                            failed.push(format!("closing position {id} ({amount} LP){}: {}", if repointed { " after the pool manager address was changed" } else { "" }, c.short()));
+                            continue;
+                        }
+                        let exp = fobserve(w).positions.get(&id).and_then(|q| q.expiring_at).unwrap_or(0);
+                        if w.now() < exp {
+                            w.set_time(exp);
+                        }
+                        let b_before = w.balance(&p.receiver, &p.lp_asset.denom);
+                        let o = w.apply(&pos_op(&p.receiver, PositionAction::Withdraw { identifier: id.clone(), emergency_unlock: None }, vec![]));
+                        if o.is_ok() && w.balance(&p.receiver, &p.lp_asset.denom) - b_before != amount {
+                            failed.push(format!("position {id}: closed and withdrawn but the owner received {} of {amount}", w.balance(&p.receiver, &p.lp_asset.denom) - b_before));
+                        }
+                        o
+                    } else if pos_now.open {
                         // an open position leaves through the emergency exit (penalty goes to
                         // third parties but must be there to be paid)
                         w.apply(&pos_op(&p.receiver, PositionAction::Withdraw { identifier: id.clone(), emergency_unlock: Some(true) }, vec![]))
